@@ -117,6 +117,20 @@ CHECKS = {
             "count per mode; the real strain vectors of all four modes must have exactly that length, equal across the skills of a mode, "
             "finite and non-negative, and re-aggregating the returned peaks must reproduce the catch / mania stars and the osu flashlight rating.",
             "DESIGN.md 3/C16", "TLA+ model checking (TLC) of the section machine + replay + numeric re-aggregation from returned peaks"),
+    "C01": ("spec/Session.tla + MC_Session.tla + TraceSession.tla + Bpm.tla + MC_Bpm.tla; harness session-record, bpm-replay", "model_checking",
+            "The library is specified as pure functions of a call key; TLC enumerates every call history up to a bound (repetitions, "
+            "interleavings with another map, two gradual handles, fresh vs reused values); each history is executed in several separate "
+            "processes and the recorded (key, digest, map digest) events of all of them are validated by TLC against ONE memo table and "
+            "one digest per map; Beatmap::bpm's aggregator is modelled precisely (ties go to the first beat length) and every enumerated "
+            "timing setup, a seventh of them ties, is replayed repeatedly.",
+            "DESIGN.md 3/C01", "TLA+ model checking (TLC) of call histories + multi-process trace validation against a memo-table specification"),
+    "C20": ("spec/MC_Threads.tla (on Session.tla) + TraceSession.tla; harness threads-record (default and sync builds)", "model_checking",
+            "TLC enumerates every assignment of a job list to threads, every Begin/End interleaving and every hand-over point of a shared "
+            "gradual calculator, with the invariant that each call keeps the key it has in the sequential run; each schedule is replayed "
+            "on real threads by a coordinator (overlapping calls are started before either is awaited, calculators travel between threads "
+            "in the sync build), plus an uncoordinated 16-thread stress run; all events must be explained by the memo table of the "
+            "sequential run.",
+            "DESIGN.md 3/C20", "TLA+ model checking (TLC) of schedules + replay on real threads + trace validation"),
 }
 
 NOT_YET = {
